@@ -996,3 +996,157 @@ class MTime(Monitor):
 
     def state(self):
         return [sorted((list(k), v) for k, v in self.waits.items()), sorted((list(k), v) for k, v in self.tasks.items()), sorted(map(str, self.flagged))]
+
+# ------------------------------------------------------------------------------------------------------
+class MChild(Monitor):
+    """C15: child executions and task-token callbacks complete exactly their launching task."""
+    name = "M-child"
+    DOC_FIELDS = {"ExecutionArn", "Input", "Name", "Output", "StartDate", "StateMachineArn", "Status", "StopDate"}
+    def __init__(self, scenario):
+        super().__init__()
+        self.sc = scenario
+        self.form = scenario.get("child_form")
+        self.child = scenario.get("child_arn")
+        self.parent = scenario.get("parent_arn")
+        self.child_term = None
+        self.child_running = False
+        self.child_input = {"from": "parent", "n": 1}
+        self.parent_task_done = False
+        self.hist = 0
+        self.flagged = set()
+        self.timeout_step = None
+        self.api_seen = 0
+        self.valid_cb_steps = []
+
+    def _flag(self, w, kind, detail, **extra):
+        if kind in self.flagged:
+            return
+        self.flagged.add(kind)
+        self.flag(w, kind, detail, self.parent, None, **extra)
+
+    def on_note(self, w, note):
+        d = (note["body"] or {}).get("detail") or {}
+        arn, st = d.get("executionArn"), d.get("status")
+        if arn == self.child or (self.form == "sync-map" and arn and ":execution:c:" in arn):
+            if st == "RUNNING":
+                self.child_running = True
+            elif st in TERMINAL and arn == self.child:
+                self.child_term = d
+        if arn == self.parent and st in TERMINAL:
+            self._parent_terminal(w, d)
+
+    def after_step(self, w, label):
+        # API answers to SendTask* calls
+        while self.api_seen < len(w.api_log):
+            a = w.api_log[self.api_seen]; self.api_seen += 1
+            tag = a.get("tag")
+            if tag in ("forged", "truncated", "notbase64"):
+                if not (a["status"] == 400 and a["type"] == "InvalidToken"):
+                    self._flag(w, "bad_token_accepted", "%s with a %s token answered HTTP %s %s, expected 400 InvalidToken" % (a["action"], tag, a["status"], a["type"]), what=tag)
+            elif tag in ("valid", "valid-failure"):
+                self.valid_cb_steps.append(a["step"])
+                if a["status"] != 200:
+                    self._flag(w, "valid_token_refused", "%s with the task's token answered HTTP %s %s" % (a["action"], a["status"], a["type"]))
+        engs = w.engines()
+        if not engs or self.parent is None:
+            return
+        h = engs[0].execution_history.get(self.parent)
+        if h is None:
+            return
+        hl = list(h)
+        new = hl[self.hist:]
+        self.hist = len(hl)
+        for ev in new:
+            t = ev.get("type")
+            if t in ("TaskSucceeded", "TaskFailed") and self.form in ("sync", "sync2", "sdk", "sync-nested") and not self.parent_task_done:
+                self.parent_task_done = True
+                child_rec = w.executions().get(self.child)
+                child_done = self.child_term is not None or (child_rec is not None and child_rec.get("status") in TERMINAL)
+                if not child_done:
+                    self._flag(w, "parent_completed_before_child", "the launching task completed (%s) while the child execution is not terminal" % t)
+            if t == "TaskTimedOut" and self.form == "sync-timeout":
+                self.timeout_step = w.step_no
+        if self.form in ("sync-timeout", "sync-terminated"):
+            td = engs[0].task_dispatcher
+            cur = set(k for k, v in td.cancellers.items() if v.get("Execution") == self.child) | set(k for k, v in td.pending_requests.items() if v[1] == self.child)
+            gone = self.timeout_step is not None or (self.form == "sync-terminated" and self._parent_failed(w))
+            if gone and not getattr(self, "gone_seen", False):
+                self.gone_seen = True
+                # what the child was blocked on when the parent task timed out / was terminated must have been cancelled in that very step
+                still = cur & getattr(self, "prev_handles", set())
+                if still:
+                    self._flag(w, "child_not_cancelled", "the parent task timed out / was terminated but %d task/wait handle(s) the child was blocked on at that moment are still there" % len(still))
+            self.prev_handles = cur
+
+    def _parent_failed(self, w):
+        return any(s in TERMINAL for s in [self._pst(w)])
+
+    def _pst(self, w):
+        rec = w.executions().get(self.parent) or {}
+        return rec.get("status")
+
+    def on_op(self, w, op):
+        if op["op"] == "publish" and op.get("routing_key") in w.workers and self.form in ("sync-timeout",) and self.timeout_step is not None:
+            cid = (op.get("correlation_id") or "")
+            self._flag(w, "child_request_after_parent_timeout", "an RPC request to %s was issued after the parent task had timed out" % op.get("routing_key"), queue=op.get("routing_key"))
+
+    def _parent_terminal(self, w, d):
+        st = d.get("status")
+        out = None
+        try:
+            out = json.loads(d.get("output")) if d.get("output") is not None else None
+        except Exception:
+            pass
+        f = self.form
+        if f == "start":
+            c = (out or {}).get("child") if isinstance(out, dict) else None
+            if st != "SUCCEEDED" or not isinstance(c, dict) or c.get("executionArn") != self.child or not isinstance(c.get("startDate"), (int, float)) or set(c) != {"executionArn", "startDate"}:
+                self._flag(w, "async_launch_result", "startExecution task result %r" % (c,))
+        elif f in ("sync", "sync2", "sdk", "sync-nested"):
+            fails = "fails" in self.sc["name"]
+            if not fails:
+                src = out
+                if f == "sync-nested" and isinstance(out, list):
+                    src = out[0]
+                c = (src or {}).get("child") if isinstance(src, dict) else None
+                if st != "SUCCEEDED" or not isinstance(c, dict):
+                    self._flag(w, "sync_result", "parent ended %s with child result %r" % (st, c))
+                    return
+                missing = self.DOC_FIELDS - set(c)
+                extra = set(c) - self.DOC_FIELDS - {"Error", "Cause"}
+                if missing or extra:
+                    self._flag(w, "sync_result_fields", "child result has fields %s: missing %s, undocumented %s" % (sorted(c), sorted(missing), sorted(extra)), what="fields")
+                    return
+                want_out = {"from": "parent", "n": 1, "z": "done"} if True else None
+                want_out = {"c": 1, "z": "done"}
+                as_json = self.sc["name"].startswith("child-sync2")
+                try:
+                    o = c["Output"] if as_json else json.loads(c["Output"])
+                    i = c["Input"] if as_json else json.loads(c["Input"])
+                    typed = (isinstance(c["Output"], str) != as_json) and (isinstance(c["Input"], str) != as_json)
+                except Exception:
+                    o = i = None; typed = False
+                if not typed or o != want_out or i != self.child_input or c["ExecutionArn"] != self.child or c["Status"] != "SUCCEEDED" or c["Name"] != "c1":
+                    self._flag(w, "sync_result_values", "child result %r" % (c,), what="values")
+            else:
+                caught = "caught" in self.sc["name"]
+                if caught:
+                    e = (out or {}).get("err") if isinstance(out, dict) else None
+                    if st != "SUCCEEDED" or not isinstance(e, dict) or e.get("Error") != "States.TaskFailed" or "E.child" not in str(e.get("Cause")):
+                        self._flag(w, "sync_failure_result", "caught child failure delivered as %r (status %s)" % (e, st))
+                elif st != "FAILED" or d.get("error") != "States.TaskFailed" or "E.child" not in str(d.get("cause")):
+                    self._flag(w, "sync_failure_result", "parent ended %s error=%r cause=%r after the child failed with E.child" % (st, d.get("error"), str(d.get("cause"))[:120]))
+        elif f == "invalid":
+            if st != "FAILED" or self.child_running:
+                self._flag(w, "invalid_combination_ran", "parent ended %s (error %r), child started: %s" % (st, d.get("error"), self.child_running))
+        elif f == "token":
+            allowed = self.sc.get("allowed")
+            cb = out.get("cb") if isinstance(out, dict) else None
+            got = [st, cb if st == "SUCCEEDED" else d.get("error")]
+            if allowed is not None and got not in allowed:
+                self._flag(w, "callback_result", "task completed as %r, allowed %r" % (got, allowed), what=str(got[0]))
+            if st == "SUCCEEDED" and isinstance(out, dict) and "cb" in out and not self.valid_cb_steps and not self.sc.get("completes_without_callback"):
+                self._flag(w, "completed_without_callback", "the waitForTaskToken task completed although no valid callback had been sent")
+
+    def state(self):
+        return [self.child_running, self.child_term is not None, self.parent_task_done, self.timeout_step is not None, sorted(self.flagged), len(self.valid_cb_steps)]
